@@ -397,13 +397,7 @@ impl World {
                 // some anchor position during this tip's time as best tip
                 self.fee_candidates.contains(&r)
             };
-            let strict = !window.is_empty() && {
-                // the current window's percentiles are always acceptable; anything else must
-                // at least be the percentiles of a window ending at this tip (same max-recent
-                // prefix), which `fee_candidates` over-approximates.
-                true
-            };
-            if !ok || !strict {
+            if !ok {
                 return Err(violation(
                     "C15",
                     "fee-percentiles-wrong",
